@@ -86,6 +86,8 @@ def check_trees(st, e, d, dsets):
   """All bracketings x permutations of the merge of the given datasets."""
   k = len(dsets)
   rows = tuple(r for ds in dsets for r in e.rows(ds))
+  cls = e.input_class(rows)
+  tail = f':{cls}' if cls else ''
   groups = {}
   for tree in enums.merge_trees(k):
     case = (e.key, d.api, 'tree', dsets, tree)
@@ -106,7 +108,8 @@ def check_trees(st, e, d, dsets):
     if ('raised' in got) != ('raised' in ref):
       which = got.get('raised') or ref.get('raised')
       st.violation(
-          f'C11:{e.signame}:{d.api}:merge-trees:some-groupings-raise:{which}',
+          f'C11:{e.signame}:{d.api}:merge-trees:some-groupings-raise:{which}'
+          f'{tail}',
           {'case': case, 'tree': tree, 'result': got, 'other_tree': ref_tree,
            'other_result': ref}, replay=rp)
       continue
@@ -116,7 +119,7 @@ def check_trees(st, e, d, dsets):
     for comp in _same(e, got, ref, rows):
       st.violation(
           f'C11:{e.signame}:{d.api}:merge-trees:grouping-or-order-changes-result:'
-          f'{comp}',
+          f'{comp}{tail}',
           {'case': case, 'datasets': [e.rows(x) for x in dsets], 'tree': tree,
            'result': got, 'other_tree': ref_tree, 'other_result': ref},
           replay=rp)
@@ -126,6 +129,8 @@ def check_trees(st, e, d, dsets):
 
 def check_identity(st, e, d, ds):
   rows = e.rows(ds)
+  cls = e.input_class(rows)
+  tail = f':{cls}' if cls else ''
   want = _obs(d, _build(d, e, ds))
   for side in ('fresh-left', 'fresh-right'):
     case = (e.key, d.api, 'identity', side, ds)
@@ -139,13 +144,13 @@ def check_identity(st, e, d, ds):
     except Exception as ex:  # pylint: disable=broad-except
       st.violation(
           f'C11:{e.signame}:{d.api}:identity:{side}:merge-raises:'
-          f'{type(ex).__name__}',
+          f'{type(ex).__name__}{tail}',
           {'case': case, 'rows': rows, 'error': repr(ex)[:300]}, replay=rp)
       continue
     got = _obs(d, m)
     for comp in _same(e, got, want, rows):
       st.violation(
-          f'C11:{e.signame}:{d.api}:identity:{side}:result-differs:{comp}',
+          f'C11:{e.signame}:{d.api}:identity:{side}:result-differs:{comp}{tail}',
           {'case': case, 'rows': rows, 'merged_with_fresh': got, 'alone': want},
           replay=rp)
 
